@@ -16,6 +16,11 @@ CLAIMS = {
          'spec/Numeric.tla defines + - * div idiv mod, unary minus, abs/floor/ceiling/round/round(x,p)/round-half-to-even over exact rationals with IEEE specials and signed zero; TLC checks a=(a idiv b)*b+(a mod b), truncation, sign of mod, floor/ceiling/round, ties-to-even, promotion and division-by-zero laws on every reachable accumulator, and the graph (all grid pairs x operators, chains of two operations) is replayed on the real evaluator comparing value, type and sign of zero.',
          'grid of ~30 (quick) / ~60 (thorough) boundary values per the four types; non-dyadic decimals are not mixed with float/double (cast rounding is outside the exact model); decimal division precision and xs:float single-precision rounding are implementation-defined',
          'DESIGN.md section 4 C06'),
+ 'C18': ('model_checking',
+         'TLA+ spec SeqTypes (XSD atomic hierarchy, SequenceType matching, subtype rules) checked by TLC (reflexive, transitive, sound); every (value,type) judgement replayed through instance of / treat as / match_sequence_type; is_sequence_type_restriction, instance-of tables and function_signatures exported from /repo into a generated TLA+ module and checked by TLC against the same laws',
+         'TLC evaluates Matches and Subtype over a finite universe of ~350-465 sequence types and 49-79 values and proves the laws on the spec; the implementation relations exported at check time must satisfy the same laws and equal the spec, every counterexample is re-confirmed through the public API; each registered function signature is called with TLC-chosen arguments and the result must match the declared return type in the spec.',
+         'universe bounded (16/46 atomic type names, sequences <= 2); maps/arrays against typed function tests where XDM 17.1 and XPath 2.5.6.2 disagree are not judged; schema-aware types excluded; no second oracle: mismatches adjudicated by the W3C text (refs in known_findings.d/C18.json)',
+         'DESIGN.md section 4 C18'),
 }
 NOT_YET = 'check not built yet (construction in progress, see DESIGN.md section 5)'
 
